@@ -15,3 +15,29 @@ CHECKS = {
   "technique": "machine-checked proof in Coq + model/implementation correspondence check",
  },
 }
+
+def _ev(text):
+    return {"text": text,
+            "note": "Trusted: Coq kernel, the correspondence harness (generators, YAML rendering, EV handler), extraction (cross-checked "
+                    "against vm_compute each run). The evaluator model (coq/Model/{Chain,GoText,Eval}.v) is hand-written; yaml.v3, "
+                    "encoding/json on non-ASCII text and the full JSON-Schema validator are exercised, not modelled.",
+            "technique": "machine-checked proof in Coq + model/implementation correspondence check"}
+
+CHECKS.update({
+ "C01": _ev("executable chain model of value.go/eval.go (lazy base chains, imports, merge flags) compared with EvalEnvironment on exhaustive "
+            "small families and random import graphs; spec = left fold of merge patch over the imports' observed values; known class kf_oso"),
+ "C02": _ev("evaluator model compared on random programs with references and built-ins; oracle: key-order independence, references denote "
+            "the final value, round trips, documented functions of literal arguments; known class toString over an object base"),
+ "C03": _ev("two-run non-interference oracle on the implementation (all secret payloads substituted, redacted renderings byte-identical) "
+            "plus flag-level correspondence with the model"),
+ "C05": _ev("collaborator call log of the implementation compared with the model's log; oracle on the log: no Open in check mode, inputs "
+            "unknown-free, schema-valid and exact, root/current names, each site at most once, each successful load at most once"),
+ "C06": _ev("check / check+showSecrets / open runs of the same world compared with the model in each mode; oracle: no Open in check, no "
+            "Decrypt unless showSecrets, approx(check, open)"),
+ "C07": _ev("fault enumeration over every collaborator call position compared with the model, cyclic/self/failing imports, reference cycles; "
+            "implementation-only shape-error and byte-mutation stream through Load/Check/Eval/Encrypt/Decrypt"),
+ "C09": _ev("N+1 evaluations in one process and one in a fresh process; Environment JSON and sorted diagnostic texts byte-compared; model "
+            "correspondence on the same programs"),
+ "C10": _ev("${imports.X} seen from arbitrary importers after all merges compared with X evaluated on its own (values and flags), plus "
+            "model correspondence"),
+})
